@@ -67,3 +67,17 @@ Definition list_set {A : Type} (tag : Z) (l : list A) (i : Z) (v : A) : result (
   let n := Z.of_nat (length l) in
   let j := if i <? 0 then i + n else i in
   if (0 <=? j) && (j <? n) then Ok (firstn (Z.to_nat j) l ++ v :: skipn (S (Z.to_nat j)) l) else Err tag.
+(* `while True:` left by `break`: the body answers (go on?, state); recursion on explicit fuel.  Running out of
+   fuel is not a Python behaviour (Err 97): linking theorems are stated for sufficient fuel. *)
+Fixpoint res_while {St : Type} (fuel : nat) (body : St -> result (bool * St)) (s : St) : result St :=
+  match fuel with
+  | O => Err 97
+  | S n => dor r <- body s; if fst r then res_while n body (snd r) else Ok (snd r)
+  end.
+
+(* a `for` loop with `break`: the body answers (go on?, state) *)
+Fixpoint res_fold_brk {St A : Type} (f : St -> A -> result (bool * St)) (l : list A) (s : St) : result St :=
+  match l with
+  | [] => Ok s
+  | a :: r => dor x <- f s a; if fst x then res_fold_brk f r (snd x) else Ok (snd x)
+  end.
